@@ -208,6 +208,22 @@ CLAIMS["C16"] = dict(
     design_ref="DESIGN.md §3 C16",
 )
 
+CLAIMS["C17"] = dict(
+    technique="sibling-implementation agreement by symbolic evaluation of type-checked HIR under a one-lane abstraction of the wide crate; who-may-call over resolved callees; dominance of mask reductions by the TypeId(Mask)==bool guard; finite case analysis over orderings",
+    category="other",
+    text=("Under the stated abstraction (a SIMD vector = its generic lane, each wide primitive palette calls = the same-named scalar op; the "
+          "primitives are listed in evidence): every num/angle/bool_mask trait method implemented for f32x4/f32x8/f64x2/f64x4 (58 methods, "
+          "276 comparisons) has the same normal form as the f32/f64 implementation - comparisons, min/max/clamp (on all orderings with "
+          "min<=max), lane loops of cbrt/floor/ceil, signum via copysign, is_valid_divisor = is_normal, powi/powu on concrete exponents "
+          "(num::pow = x^k for k<=32), mask from_bool/select/lazy_select; no body reaches an approximate wide intrinsic (recip, recip_sqrt, "
+          "fast_*); masks are reduced to a bool only inside the TypeId(Mask)==bool arm or in the listed slice reduction; all 126 "
+          "[Color<T>;N] <-> Color<V> conversions map lane i of each field (hue, alpha) to element i; the scalar and mask-generic arms of "
+          "Rgb->Hsv and Rgb->Hsl are equal (hue mod 360) and equal the hexcone model on all 26 sign/ordering regions of (r,g,b) (thorough: "
+          "plus negative channels). Not decided: f32 vs f64 accuracy, accuracy of wide's transcendental approximations, wide's round-half-even "
+          "vs f32::round (Round::round is not reachable from a SIMD conversion)."),
+    design_ref="DESIGN.md §3 C17",
+)
+
 NOT_YET = "check under construction (see DESIGN.md §7 build order); will be claimed when its rule is armed"
 NA = {}
 
